@@ -15,7 +15,11 @@ use native_tls::{Error, HandshakeError, MidHandshakeTlsStream};
 use super::common::AllowStd;
 
 #[derive(Debug)]
-pub struct TlsStream<S>(native_tls::TlsStream<AllowStd<S>>);
+pub struct TlsStream<S>(
+    native_tls::TlsStream<AllowStd<S>>,
+    // Whether `close_notify` has been handed to the inner stream.
+    bool,
+);
 
 #[derive(Clone)]
 pub struct TlsConnector(native_tls::TlsConnector);
@@ -113,7 +117,17 @@ where
     }
 
     fn poll_close(mut self: Pin<&mut Self>, ctx: &mut Context<'_>) -> Poll<io::Result<()>> {
-        self.with_context(ctx, |s| s.shutdown())
+        if !self.1 {
+            match self.with_context(ctx, |s| s.shutdown()) {
+                Poll::Ready(Ok(())) => self.1 = true,
+                other => return other,
+            }
+        }
+        // `SSL_shutdown` flushes the BIO after queueing `close_notify`, but it
+        // ignores the result. Flush again so that a pending flush of the inner
+        // stream is driven to completion. Do not call `shutdown` twice: the
+        // second call would wait for the `close_notify` of the peer.
+        self.with_context(ctx, |s| io::Write::flush(s.get_mut()))
     }
 }
 
@@ -160,7 +174,7 @@ where
         match (inner.f)(stream) {
             Ok(mut s) => {
                 s.get_mut().clear_context();
-                Poll::Ready(Ok(StartedHandshake::Done(TlsStream(s))))
+                Poll::Ready(Ok(StartedHandshake::Done(TlsStream(s, false))))
             }
             Err(HandshakeError::WouldBlock(mut s)) => {
                 s.get_mut().clear_context();
@@ -224,7 +238,7 @@ impl<S: AsyncRead + AsyncWrite + Unpin> Future for MidHandshake<S> {
         match s.handshake() {
             Ok(mut s) => {
                 s.get_mut().clear_context();
-                Poll::Ready(Ok(TlsStream(s)))
+                Poll::Ready(Ok(TlsStream(s, false)))
             }
             Err(HandshakeError::WouldBlock(mut s)) => {
                 s.get_mut().clear_context();
